@@ -114,7 +114,10 @@ pub fn run(ctx: &ChildCtx, sh: &mut Shard) {
                     // (a)
                     if energy_bad(&rr, &e1) {
                         let name2 = name.clone();
-                        let sm = wasmref::shrink::shrink(m.clone(), |c| still_energy_bad(c, v1, v0cost, &name2, *fidx, &args), 2000);
+                        // delta-debugging recompiles the module for every candidate: bound it by size
+                        let size: usize = m.funcs.iter().map(|f| wasmref::show::count(&f.body)).sum();
+                        let tests = if size > 5000 { 0 } else { 2000 };
+                        let sm = wasmref::shrink::shrink(m.clone(), |c| still_energy_bad(c, v1, v0cost, &name2, *fidx, &args), tests);
                         let rr2 = run_ref(&sm, *fidx, &args, if v0cost { Cost::V0 } else { Cost::V1 });
                         sh.violate(
                             idx,
